@@ -691,9 +691,11 @@ def run_shard(spec):
         C[k] = C.get(k, 0) + n
 
     geomgen.calm_thread_pools()
+    hang = geomgen.hang_dump(PROPERTY, spec)
     orderings = set()
     for i in range(spec["scenarios"]):
         run_scenario(spec["seed"], spec["shard"], i, res, bump, orderings)
+    geomgen.hang_dump_done(hang)
     bump("distinct_orderings", len(orderings))
     # de-duplicate violations per (key, what-prefix)
     seen = {}
